@@ -177,6 +177,10 @@
 (assert (forall ((l BList) (n Int)) (! (and (msumStep l n) (=> (>= n 0) (= (msum l (+ n 1)) (+ (msum l n) (mitem l n))))) :pattern ((msumStep l n)))))
 (assert (forall ((l1 BList) (l2 BList) (n Int)) (! (=> (forall ((i Int)) (=> (and (<= 0 i) (< i (+ 1 (* 3 n)))) (= (lnth l1 i) (lnth l2 i)))) (= (msum l1 n) (msum l2 n))) :pattern ((msum l1 n) (msum l2 n)))))
 (assert (forall ((d BSeq) (i Int)) (! (= (lnth (wlist d) i) (warg d i)) :pattern ((lnth (wlist d) i)))))
+; itemTag j: always true; the instantiation handle of quantifiers over the items of a list (a contract states
+; itemTag(i) for the item it is working on, which instantiates them at i)
+(declare-fun itemTag (Int) Bool)
+(assert (forall ((j Int)) (! (itemTag j) :pattern ((itemTag j)))))
 ; strings.Split(s, "@") as a function of the string; on a wire-format message it returns the function
 ; name followed by the hex-encoded arguments (Split∘Join = id because neither the name nor hex strings
 ; contain '@'; assumed, true in the standard model)
